@@ -14,6 +14,7 @@ mod abe_policy;
 mod ae;
 mod core;
 mod data_struct;
+mod de_utils;
 mod encrypted_header;
 
 pub mod api;
